@@ -89,6 +89,14 @@ func (f *FnVC) call(v ssa.Value, c *ssa.CallCommon, ins ssa.Instruction) {
 						}
 					}
 				}
+				// ... or per package-level variable it is called on:  extern (*T).M@pkgpath.var(...)
+				if len(c.Args) > 0 {
+					if gv, ok := c.Args[0].(*ssa.Global); ok && gv.Pkg != nil {
+						if sc := f.g.findExtern(callee.String() + "@" + gv.Pkg.Pkg.Path() + "." + gv.Name()); sc != nil {
+							ct = sc
+						}
+					}
+				}
 			}
 			if mc, ok := c.Value.(*ssa.MakeClosure); ok {
 				// bindings are the free variables of the closure: pass after the params
@@ -437,6 +445,19 @@ func (f *FnVC) applyContract(ct *Contract, callee *ssa.Function, sig *types.Sign
 			for i, n := range names {
 				if n != "" && n != "_" {
 					env.vars[n] = args[i]
+				}
+			}
+		}
+	}
+	if callee == nil && sig != nil && !ct.Extern {
+		// call through a function value: parameter names of the function type
+		ps := sig.Params()
+		if ps.Len() == len(args) {
+			for i := 0; i < ps.Len(); i++ {
+				if n := ps.At(i).Name(); n != "" && n != "_" {
+					if _, dup := env.vars[n]; !dup {
+						env.vars[n] = args[i]
+					}
 				}
 			}
 		}
